@@ -160,6 +160,8 @@ def _write_evidence(mod, camp, tier, seed, t0, evidence, known_seen, replay_path
         "replayed_committed_inputs": camp.replayed,
         "planned": tot.planned + camp.replayed,
         "inconclusive_budget_hit": bool(tot.inconclusive),
+        "slowest_case_s": round(tot.slowest[0], 2),
+        "slowest_case": tot.slowest[1],
         "exhaustive": bool(getattr(mod, "EXHAUSTIVE", False)) and not tot.inconclusive,
         "tree": common.tree_fingerprint(),
         "generator": "hypothesis %s" % _hyp_version() if hasattr(mod, "strategy") else "enumeration",
